@@ -7,10 +7,13 @@
 pub mod apkt;
 pub mod bridge;
 pub mod checks;
+pub mod conn;
+pub mod driver;
 pub mod findings;
 pub mod gen;
 pub mod guard;
 pub mod libcodec;
+pub mod model;
 pub mod refcodec;
 pub mod report;
 pub mod rng;
